@@ -1,4 +1,5 @@
 import Pw.C01.Driver
+import Pw.C19.Driver
 import Pw.C12.Driver
 import Pw.C11.Driver
 open Proto
@@ -6,6 +7,7 @@ open Proto
 /-- all request handlers; each property contributes `CNN.handlers` -/
 def handlers : List (String × Handler) :=
   C01.handlers
+  ++ C19.handlers
   ++ C12.handlers
   ++ C11.handlers
 
